@@ -316,6 +316,20 @@ func runCase(f []string) string {
 			return fmt.Sprintf("ok-out-of-range %d", p)
 		}
 		return okp(p, err)
+	case "skipboth":
+		// C11 stated directly: where the strict skipper succeeds, the fast one succeeds with the same offset
+		data := unhexWin(f[1])
+		p, err := rjson.SkipValue(data, nil)
+		q, errq := rjson.SkipValueFast(data, nil)
+		switch {
+		case err != nil:
+			return "strict-err"
+		case errq != nil:
+			return fmt.Sprintf("DISAGREE %d err", p)
+		case p != q:
+			return fmt.Sprintf("DISAGREE %d %d", p, q)
+		}
+		return "ok " + strconv.Itoa(p)
 	case "valid":
 		data := unhexWin(f[1])
 		st := parseStack(f[2])
